@@ -126,7 +126,7 @@ def core_block_proof(nbits):
 
 
 def canonical_bits(n):
-    """the image of bits_from_target (mirrors `Btc.Pow.canonical` in Proofs/C17/Pow.lean)."""
+    """the image of bits_from_target (mirrors `Btc.Pow.canonical` in Proofs/C17/PowCanon.lean, plus "does not overflow")."""
     e, s = n >> 24, n & 0xFFFFFF
     if n == 0:
         return True
